@@ -303,8 +303,8 @@ func c07XRRef(name string) map[string]any {
 	return map[string]any{"apiVersion": c07XRGVK.GroupVersion().String(), "kind": c07XRGVK.Kind, "name": name}
 }
 
-func c07ClaimRef() map[string]any {
-	return map[string]any{"apiVersion": c07ClaimGVK.GroupVersion().String(), "kind": c07ClaimGVK.Kind, "name": c07ClaimName, "namespace": c07NS}
+func c07ClaimRef(claimName string) map[string]any {
+	return map[string]any{"apiVersion": c07ClaimGVK.GroupVersion().String(), "kind": c07ClaimGVK.Kind, "name": claimName, "namespace": c07NS}
 }
 
 // c07ClaimSpec draws a raw (unpruned) claim spec.
@@ -345,13 +345,13 @@ func (g *c07Gen) claimSpec(r *Rng) map[string]any {
 	return spec
 }
 
-func c07GenName(r *Rng) string {
+func c07GenName(r *Rng, claimName string) string {
 	const alpha = "bcdfghjklmnpqrstvwxz2456789"
 	b := make([]byte, 5)
 	for i := range b {
 		b[i] = alpha[r.Intn(len(alpha))]
 	}
-	return c07ClaimName + "-" + string(b)
+	return claimName + "-" + string(b)
 }
 
 func (g *c07Gen) xrCtlOp(r *Rng) c07Op {
@@ -462,14 +462,50 @@ func (g *c07Gen) editOp(r *Rng) (c07Op, bool) {
 	return op, ch
 }
 
+// c07PeerNames: the other claims of the XRD (no name is a prefix of another).
+var c07PeerNames = []string{"peer1-claim", "peer2-claim", "peer3-claim"}
+
+// Scenario draws a main claim/XR pair with its history and, half of the time, one to
+// two (thorough: three) peer pairs of the same XRD with their own histories, plus a
+// random interleaving. Every pair comes from the same distribution.
 func (g *c07Gen) Scenario(r *Rng, tier string) (c07Scn, bool) {
 	s := c07Scn{UserKeys: c07UserKeys, UserStat: c07UserStatus}
+	var pruned bool
+	s.Claim, s.XR, s.Ops, pruned = g.pair(r, tier, c07ClaimName)
+	if r.Chance(1, 2) {
+		n := r.Range(1, 2)
+		if tier == "thorough" {
+			n = r.Range(1, 3)
+		}
+		total := len(s.Ops)
+		for i := 0; i < n; i++ {
+			var pe c07Peer
+			var ch bool
+			pe.Claim, pe.XR, pe.Ops, ch = g.pair(r, tier, c07PeerNames[i])
+			pruned = pruned || ch
+			total += len(pe.Ops)
+			s.Peers = append(s.Peers, pe)
+		}
+		for i := 0; i < total; i++ {
+			s.Sched = append(s.Sched, r.Intn(n+1))
+		}
+	}
+	// make every value plain JSON (int64 numbers), as a replayed corpus line would be
+	b, _ := json.Marshal(s)
+	var back c07Scn
+	_ = json.Unmarshal(b, &back)
+	return c07Normalize(back), pruned
+}
+
+// pair draws one claim, its optional pre-existing XR and its history.
+func (g *c07Gen) pair(r *Rng, tier, claimName string) (c07Obj, *c07Obj, []c07Op, bool) {
+	var s c07Scn
 	pruned := false
 
 	// ---- claim
 	spec, ch := g.pruneSpec(g.claimSpec(r))
 	pruned = pruned || ch
-	cm := c07Obj{Name: c07ClaimName, Labels: map[string]string{}}
+	cm := c07Obj{Name: claimName, Labels: map[string]string{}}
 	if r.Chance(2, 3) {
 		cm.Labels = c07Meta(r, "cl-", r.Range(1, 3))
 	}
@@ -507,13 +543,13 @@ func (g *c07Gen) Scenario(r *Rng, tier string) (c07Scn, bool) {
 	xrName := ""
 	switch r.Intn(10) {
 	case 0, 1, 2, 3: // existing, bound XR
-		xrName = c07GenName(r)
+		xrName = c07GenName(r, claimName)
 		x := c07Obj{Name: xrName, Labels: map[string]string{}}
 		if r.Chance(3, 4) {
 			x.Labels["crossplane.io/composite"] = xrName
 		}
 		if r.Chance(1, 2) {
-			x.Labels["crossplane.io/claim-name"] = c07ClaimName
+			x.Labels["crossplane.io/claim-name"] = claimName
 			x.Labels["crossplane.io/claim-namespace"] = c07NS
 		}
 		if r.Chance(1, 4) {
@@ -533,7 +569,7 @@ func (g *c07Gen) Scenario(r *Rng, tier string) (c07Scn, bool) {
 		}
 		xs := map[string]any{}
 		if r.Chance(4, 5) {
-			xs["claimRef"] = c07ClaimRef()
+			xs["claimRef"] = c07ClaimRef(claimName)
 		}
 		if r.Chance(3, 4) {
 			xs["resourceRefs"] = []any{map[string]any{"apiVersion": "nop.example.org/v1", "kind": "NopResource", "name": "xr-only-cd0"}}
@@ -591,7 +627,7 @@ func (g *c07Gen) Scenario(r *Rng, tier string) (c07Scn, bool) {
 		s.XR = &x
 		spec["resourceRef"] = c07XRRef(xrName)
 	case 4: // the claim references an XR that does not exist (any more)
-		spec["resourceRef"] = c07XRRef(c07GenName(r))
+		spec["resourceRef"] = c07XRRef(c07GenName(r, claimName))
 	default: // first sync, nothing exists
 	}
 	cm.Spec = spec
@@ -653,11 +689,7 @@ func (g *c07Gen) Scenario(r *Rng, tier string) (c07Scn, bool) {
 		if mode >= 17 && i == 1 {
 			s.Ops = append(s.Ops, c07Op{Op: "upgrade"})
 		}
-		s.Ops = append(s.Ops, c07Op{Op: "sync", Syncer: syncer(i), Gen: c07GenName(r)})
+		s.Ops = append(s.Ops, c07Op{Op: "sync", Syncer: syncer(i), Gen: c07GenName(r, claimName)})
 	}
-	// make every value plain JSON (int64 numbers), as a replayed corpus line would be
-	b, _ := json.Marshal(s)
-	var back c07Scn
-	_ = json.Unmarshal(b, &back)
-	return c07Normalize(back), pruned
+	return s.Claim, s.XR, s.Ops, pruned
 }
